@@ -135,14 +135,22 @@ let render (r : rule list cres) : string =
   | CErr (k, s, e) ->
     (match k with
      | ESyntax -> "Syntax"
-     | _ -> Printf.sprintf "Err %s %d %d" (match k with ENumOverflow -> "overflow" | EZeroRepeat -> "zero" | EPushLiteralFeature -> "pushlit" | ESyntax -> "syntax")
+     | _ -> Printf.sprintf "Err %s %d %d" (match k with ENumOverflow -> "overflow" | EZeroRepeat -> "zero" | EPushLiteralFeature -> "pushlit"
+                                                    | EInvalidLiteral -> "invalid" | EPeekOverflow -> "peekoverflow" | ESyntax -> "syntax")
               (int_of_natv s) (int_of_natv e))
   | CPanic -> "Panic"
   | CFuel -> "Fuel"
 
 let () =
   let readcheck = ref 1 in
-  Array.iter (fun a -> if String.length a > 5 && String.sub a 0 5 = "read=" then readcheck := ios (String.sub a 5 (String.length a - 5))) Sys.argv;
+  (* fix=<insens><bar><literal_err><peek_err> : the state of the tree as probed by the harness (default: as shipped) *)
+  let fx = ref shipped in
+  Array.iter (fun a ->
+    if String.length a > 5 && String.sub a 0 5 = "read=" then readcheck := ios (String.sub a 5 (String.length a - 5));
+    if String.length a = 8 && String.sub a 0 4 = "fix=" then
+      fx := { fix_insens = a.[4] = '1'; fix_bar = a.[5] = '1'; fix_literal_err = a.[6] = '1'; fix_peek_err = a.[7] = '1' }) Sys.argv;
+  let fx = !fx in
+  let known_for mt = (not fx.fix_insens && List.exists known_insens_gap mt) || (not fx.fix_bar && List.exists (known_nested_bar false) mt) in
   let n = ref 0 and known = ref 0 and reads = ref 0 and invalid = ref 0 and known_bar = ref 0 and known_ins = ref 0 in
   read_lines (fun line ->
     if String.length line > 0 && line.[0] = '#' then print_endline line
@@ -171,8 +179,8 @@ let () =
                             if not (writable extras r.cr_body) then report "harness" case "writable = false" "a writable spelling") cg.cg_rules;
         if have_forest then begin
           (* model of consume_rules on the real forest *)
-          let model = render (consume extras text mt) in
-          if res = "Invalid" then begin incr invalid; if model <> expected && not (known_class mt) then report "spec" case ("model:" ^ model) expected end
+          let model = render (consume fx extras text mt) in
+          if res = "Invalid" then begin incr invalid; if model <> expected && not (known_for mt) then report "spec" case ("model:" ^ model) expected end
           else if model <> res then report "model" case res model;
           (* shape of the forest *)
           if not (shape_list_eqb (tokens_of_grammar cg) mt) then report "spec" case ("forest " ^ fo) "the shape tokens_of_grammar c";
@@ -188,9 +196,9 @@ let () =
         end;
         (* the property *)
         if res <> expected && res <> "Invalid" then begin
-          if have_forest && known_class mt then begin
+          if have_forest && known_for mt then begin
             incr known;
-            let cls = if List.exists (fun r -> nested_bar r.cr_body) cg.cg_rules then (incr known_bar; "nested-bar") else (incr known_ins; "insens-gap") in
+            let cls = if not fx.fix_bar && List.exists (known_nested_bar false) mt then (incr known_bar; "nested-bar") else (incr known_ins; "insens-gap") in
             if !known <= 40 then Printf.printf "KNOWN\t%s\t%s\t%s\t%s\n" cls case res expected
           end else report "spec" case res expected
         end
